@@ -26,6 +26,10 @@ pub fn replay_file(path: &str) -> Result<(), String> {
             return Ok(());
         }
     };
+    if let Some(o) = v.get("origin").filter(|o| o.is_object()) {
+        ctx.set_fixed(o["buffer"].as_str().unwrap_or(""), o["typed"].as_str().unwrap_or(""), o["pending_kar"].as_u64().unwrap_or(0) as u8);
+        println!("origin state set through the restore hook: {}", o);
+    }
     for e in v["events"].as_array().cloned().unwrap_or_default() {
         let mut ev = Ev::from_json(&e).ok_or("bad event")?;
         if let Ev::Update(o) = &mut ev {
